@@ -376,6 +376,11 @@ def _order_body():
     fn = [n for n in ast.parse(src).body if isinstance(n, ast.FunctionDef) and n.name == "save_cog_with_dask"][0]
     text = ast.unparse(fn)
     claim("for scale_idx, (mm, img) in enumerate(zip(meta.flatten(), layers)):" in text and "_tiles.append(tt)" in text, "tile bags are created level by level, full resolution (scale_idx 0) first")
+    # the level loop must be the OUTER one: with the plane loop outside, a later plane's full-resolution tiles
+    # would be created (hence written) between the overview tiles of earlier planes
+    fors = [n for n in ast.walk(fn) if isinstance(n, ast.For) and any(isinstance(x, ast.Attribute) and x.attr == "append" and isinstance(x.value, ast.Name) and x.value.id == "_tiles" for x in ast.walk(n))]
+    outer = [n for n in fors if not any(n is not o and any(n is d for d in ast.walk(o)) for o in fors)]
+    claim(len(outer) == 1 and "scale_idx" in ast.unparse(outer[0].target) and any(isinstance(n, ast.For) and "sample_idx" in ast.unparse(n.target) for n in ast.walk(outer[0]) if n is not outer[0]), "the level loop is the outer loop and the plane loop the inner one: all bags of a level are adjacent in creation order")
     claim("tiles_write_order = _tiles[::-1]" in text, "and written in reverse: all overview tile data precedes full-resolution tile data")
     claim(text.count("mk_header=_patch_hdr") == 2, "the header (offset table) is produced by _patch_hdr from the observed stream for both sinks")
 
